@@ -47,7 +47,7 @@ type caseSpec struct {
 }
 
 type req struct {
-	Kind string // put-text | get-text | accessories | get-many
+	Kind string // put-text | get-text | accessories | get-many | re-verify
 	Size int    // target size of the whole HTTP request (put-text), number of ids (get-many)
 }
 
@@ -204,6 +204,17 @@ func run(cs caseSpec) (res result, err error) {
 	model := tb.Text.GetValue()
 	for i, rq := range cs.Requests {
 		switch rq.Kind {
+		case "re-verify":
+			// pair-verify again over the encrypted connection: the whole exchange, including the accessory's
+			// last message, travels under the session in use; the new session's keys apply afterwards
+			if verr := refctl.VerifyAndSecure(cl, ctrl, sr.AccLTPK, append(cs.Entropy, 2, byte(i))); verr != nil {
+				return res, fmt.Errorf("request %d: pair-verify repeated on the encrypted connection: %v", i, verr)
+			}
+			r, derr := cl.Do("GET", fmt.Sprintf("/characteristics?id=%d.%d", textAID, textIID), "", nil)
+			if derr != nil || r.Status != 200 {
+				return res, fmt.Errorf("request %d: first request under the keys of the repeated pair-verify: %v %v", i, derr, r)
+			}
+			res.classes = append(res.classes, "re-verified-on-encrypted-connection")
 		case "put-text":
 			head := fmt.Sprintf(`{"characteristics":[{"aid":%d,"iid":%d,"value":"`, textAID, textIID)
 			tail := `"}]}`
@@ -389,7 +400,7 @@ func genSpec(t *rapid.T) caseSpec {
 	cs.RetryRight = cs.WrongCode != "" && rapid.Bool().Draw(t, "retryRight")
 	n := rapid.IntRange(1, 6).Draw(t, "nreq")
 	for i := 0; i < n; i++ {
-		k := rapid.SampledFrom([]string{"put-text", "put-text", "get-text", "accessories", "get-many"}).Draw(t, "kind")
+		k := rapid.SampledFrom([]string{"put-text", "put-text", "get-text", "accessories", "get-many", "re-verify"}).Draw(t, "kind")
 		r := req{Kind: k}
 		switch k {
 		case "put-text":
@@ -477,6 +488,7 @@ func TestC04Regress(t *testing.T) {
 		caseSpec{Code: "11122333", CtrlID: "first", CtrlSeed: seed, Entropy: seed, AccID: "C4:04:00:00:00:09", WrongCode: "44455666"},
 		caseSpec{Code: "44455666", CtrlID: "second", CtrlSeed: seed, Entropy: seed, AccID: "C4:04:00:00:00:09", Requests: []req{{"get-text", 0}}},
 		caseSpec{Code: "44455666", CtrlID: "third", CtrlSeed: seed, Entropy: seed, AccID: "C4:04:00:00:00:09", WrongCode: "11122333"},
+		caseSpec{Code: "55566777", CtrlID: "again", CtrlSeed: seed, Entropy: seed, Requests: []req{{"get-text", 0}, {"re-verify", 0}, {"put-text", 1500}, {"re-verify", 0}, {"get-text", 0}}},
 	)
 	for i, cs := range cases {
 		res, err := run(cs)
